@@ -329,7 +329,59 @@ pub fn gen_re(ch: &mut Choices, flags: &AlFlags) -> Re {
     gen_cat(ch, flags, 1, 4)
 }
 
+/// Stratum aimed at the start-state stack: 1-3 declared states, single-letter rules that push,
+/// pop or replace (pushing the state that is already on top included), and one probe rule per
+/// state that emits a distinct token, so that any slip in the stack shows up in the lexemes.
+pub fn gen_al_states(ch: &mut Choices) -> AL {
+    let mut al = AL::default();
+    let ns = ch.range(1, 3);
+    let names = ["A", "B", "C"];
+    for i in 0..ns {
+        al.states.push((names[i].to_string(), ch.chance(2, 3)));
+    }
+    let letters = ['a', 'b', 'c', 'd', 'e', 'f', 'g', 'h', 'i', 'j', 'k', 'l'];
+    let mut li = 0;
+    let nops = ch.range(3, 8);
+    for _ in 0..nops {
+        if li >= letters.len() {
+            break;
+        }
+        let from = ch.pick(ns + 1);
+        let to = if ch.chance(1, 3) { from } else { ch.pick(ns + 1) };
+        let op = *ch.choose(&[Op::Push, Op::Push, Op::Pop, Op::Replace]);
+        // the same letter may be bound in several states
+        let letter = if li > 0 && ch.chance(1, 4) { letters[ch.pick(li)] } else { li += 1; letters[li - 1] };
+        al.rules.push(AlRule {
+            states: vec![from],
+            re: Re::Lit { c: letter, esc: false },
+            name: if ch.chance(1, 3) { Some(format!("op{}", al.rules.len())) } else { None },
+            target: Some((to, op)),
+        });
+    }
+    for st in 0..=ns {
+        al.rules.push(AlRule {
+            states: vec![st],
+            re: Re::Lit { c: 'x', esc: false },
+            name: Some(format!("IN{st}")),
+            target: None,
+        });
+    }
+    if ch.chance(1, 2) {
+        // an unqualified rule: active in INITIAL and inclusive states only
+        al.rules.push(AlRule {
+            states: vec![],
+            re: Re::Lit { c: 'y', esc: false },
+            name: Some("ANY".into()),
+            target: None,
+        });
+    }
+    al
+}
+
 pub fn gen_al(ch: &mut Choices, max_rules: usize) -> AL {
+    if ch.chance(1, 4) {
+        return gen_al_states(ch);
+    }
     let mut al = AL::default();
     // flags
     let pick_flag = |ch: &mut Choices| -> Option<bool> {
